@@ -232,10 +232,34 @@ Definition c07_step_mismatches (cases : list scase) : list nat :=
                         | _ => true
                         end) 0 cases.
 
+(** the implementation's own account: a stride whose end state gained the binding "actionError" is the stride of an
+    action that failed, and reports no message *)
+Definition has_key (k : string) (s : option state) : bool :=
+  match s with
+  | Some st => match lookup k (copy_bs (st_bs st)) with Some _ => true | None => false end
+  | None => false
+  end.
+(** (a native action that hands back an execution together with its error is the one exception Step makes: what
+    such an execution holds is reported, and the model says so too) *)
+Definition hands_back_on_error (sp : aspec) (sd : stride) : bool :=
+  match find_node (st_node (sd_from sd)) (sp_nodes sp) with
+  | Some n => match nd_action n with Some (Native _ true) => true | _ => false end
+  | None => false
+  end.
+Definition failed_action_silent (sp : aspec) (sd : stride) : bool :=
+  if has_key "actionError" (sd_to sd) && negb (has_key "actionError" (Some (sd_from sd)))
+     && negb (hands_back_on_error sp sd)
+  then match sd_emitted sd with [] => true | _ => false end
+  else true.
+
 (** C08: emitted lists only *)
 Definition c08_step_violations (cases : list scase) : list nat :=
   bad_indexes (fun c =>
                  let o := model_step c in
+                 match sc_go c with
+                 | GStep (Some s) _ => negb (failed_action_silent (sc_spec c) s)
+                 | _ => false
+                 end ||
                  if so_ambiguous o then false else
                  match sc_go c with
                  | GStep sd _ =>
@@ -428,6 +452,7 @@ Definition c08_walk_violations (cases : list wcase) : list nat :=
                         match wc_go c with
                         | GWalk gw _ =>
                             negb (wc_accessors c) ||
+                            negb (forallb (failed_action_silent (wc_spec c)) (w_strides gw)) ||
                             negb amb &&
                             negb (list_eqb (list_eqb json_eqb) (map sd_emitted (w_strides w))
                                            (map sd_emitted (w_strides gw)))
